@@ -276,14 +276,19 @@ void f_link (void) {
     error ("link() efun called before master object is set up.\n");
   if (sp)
     {
-      push_svalue (sp - 1);
-      push_svalue (sp);
+      svalue_t *from = sp - 1, *to = sp; /* push_svalue() is a macro that moves sp before it reads its argument */
+
+      push_svalue (from);
+      push_svalue (to);
       ret = apply_master_ob (APPLY_VALID_LINK, 2);
       if (MASTER_APPROVED (ret))
         i = do_rename ((sp - 1)->u.string, sp->u.string, F_LINK);
       else
         i = 0;
-      (--sp)->type = T_NUMBER;
+      /* release both path arguments before the result replaces them */
+      free_string_svalue (sp--);
+      free_string_svalue (sp);
+      sp->type = T_NUMBER;
       sp->u.number = i;
       sp->subtype = 0;
     }
